@@ -56,6 +56,25 @@ func (p *PV) Equal(q *PV) bool {
 	return true
 }
 
+// HasRepeatedKey: some hash inside the tree holds two entries with equal keys
+func (p *PV) HasRepeatedKey() bool {
+	if p.K == "h" {
+		for i := range p.L {
+			for j := i + 1; j < len(p.L); j++ {
+				if p.L[i].K == "e" && p.L[j].K == "e" && Veq(p.L[i].L[0], p.L[j].L[0]) {
+					return true
+				}
+			}
+		}
+	}
+	for _, c := range p.L {
+		if c.HasRepeatedKey() {
+			return true
+		}
+	}
+	return false
+}
+
 // Clean: no nil / cut / bad node anywhere
 func (p *PV) Clean() bool {
 	switch p.K {
